@@ -188,7 +188,7 @@ pub fn run(ctx: &Ctx) {
         check_twin,
     );
     let max_len = t.pick(300usize, 1500);
-    let n = t.pick(40_000u64, 1_000_000);
+    let n = t.pick(200_000u64, 2_000_000);
     ctx.generated("twins", "twin", n, "canonical value x scale in +-60 / +-2000 / +-99000 x 0..60 (..900) extra zeros each", move || twin_strategy(max_len), check_twin);
     ctx.generated("zeros", "twin", n / 4, "zero with two scales anywhere in [-10^5, 10^5], both construction signs", zero_strategy, check_twin);
     ctx.generated("negscale-vs-written", "twin", n / 16, "n e+k (negative scale) versus n followed by k (+extra) written zeros, k up to 90000", move || negscale_strategy(max_len.min(300)), check_twin);
